@@ -121,12 +121,13 @@ def run_one(ctx, case, judge, ref_kw=None, exclude=None, nontrivial=None):
     except REF.RefInconsistency:
         ctx.count("skipped:mro_conflict")
         return
-    if exclude is not None:
+    why = None if case.get("directed_known") else known_shape(program)
+    if why is None and exclude is not None:
         why = exclude(ctx, case, model)
-        if why:
-            ctx.excluded_by_known += 1
-            ctx.count("excluded:" + why)
-            return
+    if why:
+        ctx.excluded_by_known += 1
+        ctx.count("excluded:" + why)
+        return
     cids = all_cids(program)
     feats = program_features(program)
     for f in feats:
@@ -188,6 +189,90 @@ def d23_shape(program):
         if any(cl[k].get("invs") for k in a) and not any(m["kind"] == "init" for k in a for m in cl[k]["members"]):
             return True
     return False
+
+
+def d24_shape(program):
+    """Finding D24: a class that INTRODUCES invariants below invariant-free ancestors has to wrap the members it
+    inherits and thereby re-defines them on itself; in a multiple-inheritance class `D(B, C)` this copy shadows C's
+    override of the same member (or C's __init__ reached through super())."""
+    cl = program.get("classes", [])
+    if not any(len(c.get("bases", [])) >= 2 for c in cl):
+        return False
+
+    def anc(ci):
+        out, stack = set(), list(cl[ci].get("bases", []))
+        while stack:
+            k = stack.pop()
+            if k not in out:
+                out.add(k)
+                stack += cl[k].get("bases", [])
+        return out
+
+    for ci, c in enumerate(cl):
+        if not c.get("invs") or not c.get("bases"):
+            continue
+        a = anc(ci)
+        if any(cl[k].get("invs") for k in a):
+            continue
+        own = {(m["name"], m["kind"]) for m in c.get("members", [])}
+        inherited = {(m["name"], m["kind"]) for k in a for m in cl[k].get("members", [])
+                     if m["kind"] not in ("static", "class", "new") and not (m["name"].startswith("_") and m["kind"] != "init")}
+        if inherited - own:
+            return True
+    return False
+
+
+_active_shapes = None
+
+
+def _m(name, kind, **kw):
+    params, defaults = G.params_of(kind)
+    d = {"name": name, "kind": kind, "async": False, "params": params, "defaults": defaults, "decos": [], "body": {"ret": "obj"}}
+    d.update(kw)
+    return d
+
+
+D24_PROGRAM = {"funcs": [], "classes": [
+    {"name": "K0", "bases": [], "root": "DBC", "shape": "plain", "invs": [], "members": [_m("m", "method")]},
+    {"name": "K1", "bases": [0], "root": "DBC", "shape": "plain", "members": [],
+     "invs": [{"cid": 1, "on": "CALL", "lam": False, "selfarg": True, "err": {"form": "default"}}]},
+    {"name": "K2", "bases": [0], "root": "DBC", "shape": "plain", "invs": [], "members": [_m("m", "method")]},
+    {"name": "K3", "bases": [1, 2], "root": "DBC", "shape": "plain", "invs": [], "members": []}]}
+D24_OPS = [{"op": "new", "cls": 3, "k": 0, "args": {}}, {"op": "call", "k": 0, "m": "m", "args": {"x": "a:x"}}]
+D23_PROGRAM = {"funcs": [], "classes": [
+    {"name": "K0", "bases": [], "root": "DBC", "shape": "noinit", "members": [],
+     "invs": [{"cid": 1, "on": "CALL", "lam": False, "selfarg": True, "err": {"form": "default"}}]},
+    {"name": "K1", "bases": [], "root": "DBC", "shape": "plain", "invs": [], "members": [
+        _m("__new__", "new", body={"ret": "None"}), _m("__init__", "init", body={"ret": "None"}, super="absent")]},
+    {"name": "K2", "bases": [0, 1], "root": "DBC", "shape": "plain", "invs": [], "members": []}]}
+D23_OPS = [{"op": "new", "cls": 2, "k": 0, "args": {}}]
+
+
+def active_shapes():
+    """Which of the open cross-check findings (D23, D24) still reproduce on the tree under test. A shape is only
+    diverted while its canonical reproducer fails, so a repaired tree is explored in full."""
+    global _active_shapes
+    if _active_shapes is None:
+        _active_shapes = set()
+        for fid, prog, ops, want in (("D24", D24_PROGRAM, D24_OPS, "K2.m"), ("D23", D23_PROGRAM, D23_OPS, "K1.__new__")):
+            try:
+                res = H.run_case(prog, ops, {})
+                bodies = [e[1] for e in res.real_log if e[0] == "body"]
+                if want not in bodies:
+                    _active_shapes.add(fid)
+            except Exception:  # noqa - the reproducer itself failing to run counts as 'still broken'
+                _active_shapes.add(fid)
+    return _active_shapes
+
+
+def known_shape(program):
+    """Shapes of open known findings that every progmodel-based generator diverts (counted by the caller)."""
+    act = active_shapes()
+    if "D23" in act and d23_shape(program):
+        return "D23"
+    if "D24" in act and d24_shape(program):
+        return "D24"
+    return None
 
 
 def struct_sig(case):
